@@ -86,15 +86,22 @@ void ExpressionBuilder::parse_begin()
     framesMark = frames.size();
 }
 
-void ExpressionBuilder::parse_end(bool success)
+void ExpressionBuilder::parse_end(bool success, int results)
 {
     // Every production that opens a scope also closes it, so a scope that is still open now belongs to
     // a production discarded by error recovery (e.g. the binder of a quantifier whose body is
     // malformed); names of the following blocks must not be resolved in it.
     while (frames.size() > framesMark)
         frames.pop();
-    if (success)
+    if (success) {
+        // Error recovery discards productions but not the operands they had pushed ("k + a[1 1]"
+        // leaves 'a' and '1' below the result): only the results of the block may stay, or the
+        // debris is taken for an operand of an earlier block that is still pending (the invariant
+        // of the same location).
+        if (results >= 0)
+            fragments.drop_between(fragmentsMark, results);
         return;
+    }
     // The grammar gave up in the middle of some production: the operands and types it pushed would be
     // picked up by the next block.
     while (fragments.size() > fragmentsMark)
